@@ -398,6 +398,7 @@ func runC09(res *Result, tier string, seed int64, replay string) {
 	}
 	if pool, perr := startDriverPool(4); perr == nil {
 		runC09Store(res, pool, tier, seed)
+		runC09Merge(res, pool, tier, seed)
 		pool.Close()
 	}
 	res.Exhaustive = true
